@@ -15,6 +15,7 @@ import (
 
 	"github.com/pion/datachannel"
 	"github.com/pion/logging"
+	"github.com/pion/webrtc/v4/internal/verifhook"
 	"github.com/pion/webrtc/v4/pkg/rtcerr"
 )
 
@@ -348,6 +349,7 @@ func (d *DataChannel) handleOpen(dc *datachannel.DataChannel, isRemote, isAlread
 	bufferedAmountLowThreshold := d.bufferedAmountLowThreshold
 	onBufferedAmountLow := d.onBufferedAmountLow
 	d.mu.Unlock()
+	verifhook.Point("dc.open.set-open")
 	d.setReadyState(DataChannelStateOpen)
 
 	// Fire the OnOpen handler immediately not using pion/datachannel
@@ -402,6 +404,7 @@ func (d *DataChannel) onError(err error) {
 }
 
 func (d *DataChannel) readLoop() {
+	defer verifhook.Point("dc.rl.exit")
 	defer func() {
 		d.mu.Lock()
 		readLoopActive := d.readLoopActive
@@ -426,6 +429,7 @@ func (d *DataChannel) readLoop() {
 				)
 			}
 
+			verifhook.Point("dc.rl.set-closed")
 			d.setReadyState(DataChannelStateClosed)
 			if !errors.Is(err, io.EOF) {
 				d.onError(err)
@@ -563,11 +567,13 @@ func (d *DataChannel) close(shouldGracefullyClose bool) error {
 	}
 	haveSctpTransport := d.dataChannel != nil
 	d.mu.Unlock()
+	verifhook.Point("dc.close.check")
 
 	if d.ReadyState() == DataChannelStateClosed {
 		return nil
 	}
 
+	verifhook.Point("dc.close.set-closing")
 	d.setReadyState(DataChannelStateClosing)
 	if !haveSctpTransport {
 		return nil
